@@ -79,6 +79,13 @@ def main():
             shutil.rmtree(vc, ignore_errors=True)
             shutil.rmtree(wt, ignore_errors=True)
             sh(["git", "-C", "/repo", "worktree", "prune"])
+    # keep the results of earlier runs for other properties (a change may be caught by a neighbouring check)
+    try:
+        prev = json.load(open(os.path.join(d, "result.json")))
+        for p, c in (prev.get("checks") or {}).items():
+            res["checks"].setdefault(p, c)
+    except Exception:
+        pass
     res["caught"] = any(c["rc"] != 0 and c["violations"] for c in res["checks"].values())
     json.dump(res, open(os.path.join(d, "result.json"), "w"), indent=1)
     for p, c in res["checks"].items():
